@@ -7,10 +7,10 @@
      model's result (the harness reports an implementation result that is not in universe order as an oracle failure
      before encoding it).  Same comparison as GroupCheck.chk_pair (| & <= == hash isdisjoint).
      Primitive integers are used ONLY here (test data transport), never in a model or a theorem.
-   * the GENERATED algorithms (Gen/GroupGen.v) against the implementation: constructor (+ data_coordinate_keys),
-     n-ary union / intersection, comparisons. *)
+   (The checkers for the GENERATED algorithms are in Model/GroupXGenCheck.v, so that this file does not depend on
+   Gen/GroupGen.v and the pair comparison still runs when the translator fails.) *)
 From Coq Require Import String List Bool Arith ZArith Uint63.
-From V Require Import Model.Universe Model.Group Model.GroupX Model.GroupCheck Gen.GroupGen.
+From V Require Import Model.Universe Model.Group Model.GroupCheck.
 Import ListNotations.
 Open Scope list_scope.
 
@@ -58,36 +58,3 @@ Arguments mk63 T (i j ulo uhi ilo ihi b)%uint63.
 Definition chk_pair_t (c : (universe * table * table) * pcase) : bool :=
   let '((u, t, tr), c') := c in chk_pair_ix u t tr c'.
 
-(* ---- generated algorithms vs implementation ---- *)
-(* observed group as in GroupCheck.gobs; the seventh list is data_coordinate_keys *)
-Definition chk_gen_group (c : universe * list string * gobs) : bool :=
-  let '(u, i, o) := c in
-  match gen_new u i true, o with
-  | GOk (g, dck), Some (ls, lk) =>
-    lists_eqb ls [gnames g; grequired g; gimplied g; gelements g; ggovernors g; gskypix g; dck]
-    && match lk, glookup g with Some a, GOk b => list_eqb a b | None, GOutOfFuel => true | _, _ => false end
-  | GKeyError, None => true
-  | _, _ => false
-  end.
-
-(* a.union(b, c, ...) / a.intersection(b, c, ...) on groups the implementation built (`_conform=False` on their names),
-   and the comparisons of a with the first of the others:
-   (universe, names of a, names of the others, (names of the union, names of the intersection),
-    [a == b; a <= b; a.issubset(b); a.isdisjoint(b); hash(a) == hash(b)]) *)
-Definition chk_nary (c : universe * list string * list (list string) * (list string * list string) * list bool) : bool :=
-  let '(u, na, nos, (nu, ni), bs) := c in
-  match gen_group u na false, fold_right (fun n acc => match gen_group u n false, acc with
-                                                     | GOk g, Some l => Some (g :: l) | _, _ => None end) (Some []) nos with
-  | GOk a, Some others =>
-    match gen_union u a others, gen_intersection u a others with
-    | GOk gu, GOk gi =>
-      list_eqb (gnames gu) nu && list_eqb (gnames gi) ni
-      && match others with
-         | b :: _ => bools_eqb bs [gen_eq a b; gen_le a b; gen_issubset a b; gen_isdisjoint a b;
-                                   list_eqb (gen_hash a) (gen_hash b)]
-         | [] => true
-         end
-    | _, _ => false
-    end
-  | _, _ => false
-  end.
